@@ -62,6 +62,40 @@ Proof.
 Qed.
 
 (** * One poll of the model under the monitor *)
+
+(** The monitor registers a cancel REQUEST before the first adapter call of the
+    poll ([pre_poll]); the model sets its flag in cancel_study, the first thing
+    the poll does.  For the coupling we therefore look at the model state with
+    the flag already set: the poll does not read the old value. *)
+Definition req_state (p : pin) (s : st) : st := if cancel_req p then set_canceled s true else s.
+
+Lemma poll_req_state c g s p : poll c g (req_state p s) p = poll c g s p.
+Proof.
+  unfold req_state, poll. destruct (cancel_req p) eqn:E; reflexivity.
+Qed.
+
+Lemma pre_poll_mb p es m : mb (pre_poll p es m) = if cancel_req p then set_cseen (mb m) true else mb m.
+Proof. unfold pre_poll. destruct (cancel_req p); reflexivity. Qed.
+
+Lemma pre_poll_famA p es m : (forall k, In k famA -> ~ In k (viol m)) ->
+  forall k, In k famA -> ~ In k (viol (pre_poll p es m)).
+Proof.
+  intros H k Hk. unfold pre_poll. destruct (cancel_req p); [|auto].
+  cbn [viol]. rewrite in_app_iff. intros [Hi|Hi]; [exact (H k Hk Hi)|].
+  apply ck_codes in Hi. subst k. cbn in Hk. intuition discriminate.
+Qed.
+
+Lemma req_state_inv c g d p es s m : Inv g s -> Thr c s -> J d none none s (mb m) -> valid_pin s p = true ->
+  Inv g (req_state p s) /\ Thr c (req_state p s) /\ J d none none (req_state p s) (mb (pre_poll p es m)) /\
+  valid_pin (req_state p s) p = true.
+Proof.
+  intros I T [Jl Js] V. rewrite pre_poll_mb. unfold req_state. destruct (cancel_req p); [|split; [exact I|split; [exact T|split; [split; assumption|exact V]]]].
+  split; [eapply Inv_fields; [| | | | | | |exact I]; reflexivity|]. split; [exact T|]. split; [|exact V].
+  split.
+  - destruct Jl as [A B C]. constructor; auto.
+  - eapply JS_frame; [| |exact Js]; [intros y; reflexivity|reflexivity].
+Qed.
+
 Lemma step_poll_silent c g m p s :
   WF g -> Inv g s -> Thr c s -> J (dry c) none none s (mb m) -> valid_pin s p = true ->
   (forall k, In k famA -> ~ In k (viol m)) ->
@@ -70,17 +104,21 @@ Lemma step_poll_silent c g m p s :
   Inv g s1 /\ Thr c s1 /\ J (dry c) none none s1 (mb m') /\ (forall k, In k famA -> ~ In k (viol m')).
 Proof.
   intros W I T Jh V Hv. cbv zeta.
-  destruct (poll_spec c g p (mb m) W (dry c) s eq_refl I T Jh V) as [(I1 & Cl1 & J1) T1].
-  set (s1 := fst (poll c g s p)) in *.
-  cbn [step_poll].
-  destruct (step_ev_fold c g p (rev (evs s1)) m) as [A B].
-  set (mm := fold_left (step_ev c g p) (rev (evs s1)) m) in *.
+  set (s1 := fst (poll c g s p)).
+  destruct (req_state_inv c g (dry c) p (rev (evs s1)) s m I T Jh V) as (I0 & T0 & J0 & V0).
+  pose proof (pre_poll_famA p (rev (evs s1)) m Hv) as Hv0.
+  set (m0 := pre_poll p (rev (evs s1)) m) in *.
+  destruct (poll_spec c g p (mb m0) W (dry c) (req_state p s) eq_refl I0 T0 J0 V0) as [(I1 & Cl1 & J1) T1].
+  rewrite poll_req_state in *. fold s1 in I1, Cl1, J1, T1.
+  cbn [step_poll]. fold m0.
+  destruct (step_ev_fold c g p (rev (evs s1)) m0) as [A B].
+  set (mm := fold_left (step_ev c g p) (rev (evs s1)) m0) in *.
   split; [exact I1|]. split; [exact T1|]. split.
   - cbn [mb]. unfold led in J1. rewrite <- A in J1. destruct J1 as [Jl Js]. split.
     + eapply JL_frame; [| | | | |exact Jl]; auto; tauto.
     + eapply JS_frame; [| |exact Js]; auto; tauto.
   - intros k Hk. cbn [viol]. rewrite in_app_iff. intros [H|H].
-    + exact (B k Hk (Hv k Hk) Cl1 H).
+    + exact (B k Hk (Hv0 k Hk) Cl1 H).
     + exact (flags_end_famA c g p (mb mm) (rows_of s1) (snd (poll c g s p)) k Hk H).
 Qed.
 
